@@ -1,9 +1,10 @@
 (** Model of chiritori-cli/src/main.rs from the parsed [Args] record on.  clap's mapping from argv to
-    [Args] and the RFC 3339 parse of --time-limited-current are not modelled: the caller supplies the
-    record (with clap's declared defaults filled in by [default_args]) and the current instant. *)
+    [Args] is not modelled: the caller supplies the record (with clap's declared defaults filled in by
+    [default_args]).  The current instant is a field of the record; [run_text] at the end takes the text of
+    --time-limited-current instead and reads it with the model of chrono's parser in Model/Current.v. *)
 From Coq Require Import List NArith ZArith Arith Bool Lia.
 Import ListNotations.
-From Chiri Require Import Base.Bytes Base.Res Model.Markers Model.Clean Model.ListRender.
+From Chiri Require Import Base.Bytes Base.Res Model.Markers Model.Clean Model.ListRender Model.Current.
 
 Record args := mkArgs {
   a_filename : option str;
@@ -96,3 +97,13 @@ Definition run (a : args) (stdin : option str) (fs : str -> option str) : outcom
       end
     end
   end.
+
+(** main.rs with the text of --time-limited-current: [.parse::<DateTime<Local>>().unwrap_or(Local::now())].
+    [wall_clock] stands for [Local::now()], the only place where the process environment enters. *)
+Definition with_current (a : args) (t : Z) : args :=
+  mkArgs (a_filename a) (a_output a) (a_delimiter_start a) (a_delimiter_end a) (a_time_limited_tag_name a)
+         (a_time_limited_time_offset a) t (a_removal_marker_tag_name a) (a_removal_marker_target_name a)
+         (a_removal_marker_target_config a) (a_list a) (a_list_all a) (a_list_json a).
+
+Definition run_text (a : args) (current_text : str) (wall_clock : Z) (stdin : option str) (fs : str -> option str) : outcome :=
+  run (with_current a (current_of_arg current_text wall_clock)) stdin fs.
